@@ -82,14 +82,14 @@ Definition data_b64 : list N := [98].    (* stands for the decoded CFG_CONFIG_B6
 Definition text_b64 : list N := [66].
 
 (** the world the harness set up *)
-Definition world_of (fos : list fobs) (cfgfile : option (list N)) (b64set : bool) : world :=
+Definition world_of (isz : N) (fos : list fobs) (cfgfile : option (list N)) (b64set : bool) : world :=
   let envs := flat_map (fun fo => match fo_env fo with Some t => [(fo_envhand fo, t)] | None => [] end) fos in
   {| w_env := fun n => if bytes_eqb n b64_env_name then (if b64set then Some text_b64 else None) else env_lookup envs n;
      w_file := fun p => match cfgfile with Some q => if bytes_eqb p q then Some data_file else None | None => None end;
      w_b64 := fun s => if bytes_eqb s text_b64 then Some data_b64 else None;
      w_json := fun d => if bytes_eqb d data_file then Some (overlay_of fo_jfile fos)
                         else if bytes_eqb d data_b64 then Some (overlay_of fo_jb64 fos) else None;
-     w_set := oracle_of fos |}.
+     w_set := {| o_int_size := isz; o_parse := oracle_of fos |} |}.
 
 Record verdict := {
   v_spec_fail : list token;     (* fields whose observed value is not the priority rule's winner *)
@@ -109,7 +109,7 @@ Fixpoint tokens_eqb (a b : list token) : bool :=
   | _, _ => false
   end.
 
-Definition no_oracle : oracle := fun _ _ => SErr.
+Definition no_oracle (int_size : N) : oracle := {| o_int_size := int_size; o_parse := fun _ _ => SErr |}.
 
 Definition sres_value (r : sres) : option value := match r with SOk v => Some v | SErr => None end.
 
@@ -139,18 +139,19 @@ Definition sres_eqb (a b : sres) : bool :=
   | _, _ => false
   end.
 
-Definition parsers_ok (fos : list fobs) : bool :=
+Definition parsers_ok (isz : N) (fos : list fobs) : bool :=
   forallb (fun fo =>
     let k := fo_kind fo in
     forallb (fun p => match fst p with
-                      | [] => sres_eqb (set_T no_oracle k []) (oracle_of [fo] k [])
-                      | t => if in_model k t then sres_eqb (set_T no_oracle k t) (oracle_of [fo] k t) else true
+                      | [] => sres_eqb (set_T (no_oracle isz) k []) (oracle_of [fo] k [])
+                      | t => if in_model k t then sres_eqb (set_T (no_oracle isz) k t) (oracle_of [fo] k t) else true
                       end) (fo_oracle fo)) fos.
 
-Definition check_case (fos : list fobs) (vec : list token) (cfgfile : option (list N)) (b64set : bool)
+Definition check_case (int_size : N) (fos : list fobs) (vec : list token) (cfgfile : option (list N)) (b64set : bool)
     (ok : bool) (rest : list token) (help : option bool) : verdict :=
   let fields := map fo_flag fos in
-  let w := world_of fos cfgfile b64set in
+  let w := world_of int_size fos cfgfile b64set in
+  let orc := w_set w in
   let env_fail := flat_map (fun fo => if bytes_eqb (fenv (fo_flag fo)) (fo_envobs fo) && bytes_eqb (fo_envhand fo) (fo_envobs fo)
                                       then [] else [fname (fo_flag fo)]) fos in
   let spec_fail :=
@@ -160,13 +161,13 @@ Definition check_case (fos : list fobs) (vec : list token) (cfgfile : option (li
           let cfg := final_value asg config_name in
           let use_file := match cfg with Some (_ :: _) => true | _ => false end in
           (match help with
-           | Some h => match (match final_value asg help_name with Some t => set_T no_oracle KBool t | None => SOk (VBool false) end) with
+           | Some h => match (match final_value asg help_name with Some t => set_T (no_oracle int_size) KBool t | None => SOk (VBool false) end) with
                        | SOk (VBool b) => if Bool.eqb b h then [] else [help_name]
                        | _ => [help_name]
                        end
            | None => []
            end) ++
-          flat_map (fun fo => match fo_final fo, expected (oracle_of fos) asg use_file b64set fo with
+          flat_map (fun fo => match fo_final fo, expected orc asg use_file b64set fo with
                               | Some fin, Some v => if value_matches v fin then [] else [fname (fo_flag fo)]
                               | Some _, None => [fname (fo_flag fo)]   (* success although the winner is unparsable *)
                               | None, _ => []
@@ -177,7 +178,7 @@ Definition check_case (fos : list fobs) (vec : list token) (cfgfile : option (li
   let tag_fail := flat_map (fun fo =>
       let '(n, d, u) := parse_tag (fo_tag fo) (fo_goname fo) in
       if bytes_eqb n (fo_hname fo) && bytes_eqb d (fo_hdef fo) && bytes_eqb u (fo_usage fo) && fo_bound fo
-         && match set_T (oracle_of fos) (fo_kind fo) d with SOk v => value_matches v (fo_init fo) | SErr => false end
+         && match set_T orc (fo_kind fo) d with SOk v => value_matches v (fo_init fo) | SErr => false end
       then [] else [fo_hname fo]) fos in
   let skipped := N.of_nat (length (filter (fun fo => match fo_final fo with None => true | Some _ => false end) fos)) in
   match run w fields vec with
@@ -191,10 +192,10 @@ Definition check_case (fos : list fobs) (vec : list token) (cfgfile : option (li
                                              | Some fin, Some v => if value_matches v fin then [] else [fname (fo_flag fo)]
                                              | _, _ => [fname (fo_flag fo)]
                                              end) fos;
-         v_outcome := ok; v_rest := tokens_eqb rest rest'; v_parsers := parsers_ok fos |}
+         v_outcome := ok; v_rest := tokens_eqb rest rest'; v_parsers := parsers_ok int_size fos |}
   | _ =>
       {| v_spec_fail := spec_fail; v_env_fail := env_fail; v_tag_fail := tag_fail; v_skipped := skipped; v_model_fail := [];
-         v_outcome := negb ok; v_rest := true; v_parsers := parsers_ok fos |}
+         v_outcome := negb ok; v_rest := true; v_parsers := parsers_ok int_size fos |}
   end.
 
 Definition is_nil {A} (l : list A) : bool := match l with [] => true | _ => false end.
